@@ -525,6 +525,7 @@ func enumerate(c config, rng *rand.Rand) []probe {
 		"/.well-known/oauth-protected-resource" + P + "/x", P + "/_oauth/callback", P + "/_oauth/logout", P + "/_oauth/token",
 		"/ops/status", P + "/ECHO", P + "/__UPLOAD_URL__/init", P + "/__upload_url__/INIT", P + "/ec%68o", P + "/__upload_url__%2Finit",
 		P + "//echo", P + "/./echo", P + "/x/../echo", P + "/x/../__upload_url__/init", P + "/echo?x=1", P + "/__upload_url__/init?count=5",
+		P + "/%C3%A9", P + "/a%20b", P + "/echo%00", P + "/%2e%2e/echo", P + "/echo%2Finit", P + "/count%2fexchange", P + "/echo;x=1", P + "/é/init",
 		P + "/__introspect_token__?token=opaque-good", P + "/count/exchange?x", "/vgi/echo", "/a/b/echo", "/a/echo"} {
 		if t == "" {
 			continue
